@@ -149,12 +149,18 @@ type world struct {
 	faults []*plannedFault
 	burst  bool
 	maxPar int
-	mt0    map[string]time.Time
+	// cancelled: the context of the run in progress was cancelled by the simulator
+	cancelled bool
+	argPath   string // -path as given to the command (may lead through a symbolic link)
+	mt0       map[string]time.Time
 }
 
 func (w *world) hook() *simos.HookT {
 	return &simos.HookT{Before: func(op, path string) simos.Fault {
 		rel, err := filepath.Rel(w.root, path)
+		if (err != nil || strings.HasPrefix(rel, "..")) && w.argPath != "" {
+			rel, err = filepath.Rel(w.argPath, path) // the tree as the user spelled it (through a link)
+		}
 		if err != nil || strings.HasPrefix(rel, "..") {
 			return simos.Fault{} // outside the tree (go.mod lookup, temp files): not a seam
 		}
@@ -176,17 +182,38 @@ func (w *world) runCommand(args generatecmd.Arguments, withFaults bool) (runErr 
 	defer simos.SetHook(nil)
 	var mu sync.Mutex
 	done := false
+	// the user's Ctrl-C (or the CI job's timeout) may arrive at any moment: before the walk, in
+	// the middle of it, while files are being written
+	ctx, cancel := context.WithCancel(context.Background())
+	defer cancel()
+	cancelAt := -1
+	w.cancelled = false
+	if withFaults && !w.burst && t.Chance(1, 5, "cancel-run") {
+		cancelAt = t.Choose(60, "cancel-at-step")
+	}
+	if cancelAt == 0 {
+		cancel()
+		w.cancelled = true
+		k.Count("fault_context_cancelled", 1)
+	}
 	go func() {
-		e := g.Run(context.Background())
+		e := g.Run(ctx)
 		mu.Lock()
 		runErr, done = e, true
 		mu.Unlock()
 	}()
-	for {
+	for step := 1; ; step++ {
 		k.Quiesce()
 		groups := k.Groups()
 		if len(groups) == 0 {
 			break
+		}
+		if step == cancelAt {
+			cancel()
+			w.cancelled = true
+			k.Count("fault_context_cancelled", 1)
+			k.Logf("context cancelled at step %d", step)
+			continue // cancellation may wake goroutines: settle first
 		}
 		if len(groups) > w.maxPar {
 			w.maxPar = len(groups)
@@ -304,14 +331,21 @@ func simWorld(rc *kernel.RunCtx) {
 		if t.Chance(1, 7, "bad-file") {
 			content = badPool[t.Choose(len(badPool), "bad")]
 		}
-		put(rel, content, base)
+		// modification times as trees in the wild have them: mostly recent, but also the epoch
+		// (reproducible archives, image layers), before it, and in the future (clock skew)
+		mt := base
+		if t.Chance(1, 6, "odd-mtime") {
+			mt = []time.Time{time.Unix(0, 0), time.Unix(-3600, 0), time.Unix(1, 0), base.AddDate(40, 0, 0)}[t.Choose(4, "which-mtime")]
+			w.k.Count("probe_template_with_epoch_or_future_mtime", 1)
+		}
+		put(rel, content, mt)
 		switch t.Choose(7, "preexisting") {
 		case 0: // stale generated file (older than the template when lazy)
-			put(filepath.Join(dir, name+"_templ.go"), "package stale\n", base.Add(-10*time.Second))
+			put(filepath.Join(dir, name+"_templ.go"), "package stale\n", mt.Add(-10*time.Second))
 		case 2: // stale generated file with exactly the template's modification time (a checkout, a tar, a COPY)
-			put(filepath.Join(dir, name+"_templ.go"), "package stale\n", base)
+			put(filepath.Join(dir, name+"_templ.go"), "package stale\n", mt)
 		case 1: // up-to-date generated file, newer than the template: filled in below
-			put(filepath.Join(dir, name+"_templ.go"), "\x00uptodate", base.Add(10*time.Second))
+			put(filepath.Join(dir, name+"_templ.go"), "\x00uptodate", mt.Add(10*time.Second))
 		}
 	}
 	for i, n := 0, t.Range(0, 4, "norphans"); i < n; i++ {
@@ -361,7 +395,7 @@ func simWorld(rc *kernel.RunCtx) {
 				f.Content = expected[tr]
 			} else {
 				f.Content = "package stale\n"
-				f.MTime = base.Add(-10 * time.Second)
+				f.MTime = files[tr].MTime.Add(-10 * time.Second)
 			}
 			files[rel] = f
 			write(f)
@@ -387,7 +421,27 @@ func simWorld(rc *kernel.RunCtx) {
 	}
 	before := snapshot(root)
 	w.mt0 = mtimes(root)
-	args := generatecmd.Arguments{Path: root, WorkerCount: workers, KeepOrphanedFiles: keep, Lazy: lazy, IncludeVersion: version}
+	// how the user spells -path: the directory itself, or a path through a symbolic link (the
+	// directory is a link, or one of its ancestors is)
+	argPath := root
+	switch t.Choose(6, "path-spelling") {
+	case 0:
+		link := root + "-link"
+		if err := os.Symlink(root, link); err == nil {
+			defer os.Remove(link)
+			argPath = link
+			k.Count("probe_path_is_a_symlink", 1)
+		}
+	case 1:
+		up := root + "-up"
+		if err := os.Symlink(filepath.Dir(root), up); err == nil {
+			defer os.Remove(up)
+			argPath = filepath.Join(up, filepath.Base(root))
+			k.Count("probe_path_through_symlinked_ancestor", 1)
+		}
+	}
+	w.argPath = argPath
+	args := generatecmd.Arguments{Path: argPath, WorkerCount: workers, KeepOrphanedFiles: keep, Lazy: lazy, IncludeVersion: version}
 	desc := fmt.Sprintf("workers=%d keep=%v lazy=%v version=%v files=%d dirs=%v", workers, keep, lazy, version, len(rels), dirs)
 
 	var sample map[string]any
@@ -406,7 +460,14 @@ func simWorld(rc *kernel.RunCtx) {
 			}
 		}
 		after := snapshot(root)
-		w.judge(desc, before, after, expected, generatable, diskFaulted, templs, keep, lazy, files, runErr, "first run")
+		void := w.cancelled && runErr != nil
+		if void {
+			// the run was interrupted and says that it failed: nothing is claimed about the tree it
+			// leaves behind, the next complete run has to bring it to the same state as ever
+			k.Count("probe_cancelled_run_reported_failure", 1)
+		} else {
+			w.judge(desc, before, after, expected, generatable, diskFaulted, templs, keep, lazy, files, runErr, "first run")
+		}
 		if rc.Failed() {
 			return
 		}
@@ -418,7 +479,7 @@ func simWorld(rc *kernel.RunCtx) {
 		after2 := snapshot(root)
 		for rel, c := range after {
 			tr := strings.TrimSuffix(rel, "_templ.go") + ".templ"
-			if diskFaulted[tr] {
+			if diskFaulted[tr] || void {
 				continue
 			}
 			if after2[rel] != c {
@@ -428,7 +489,7 @@ func simWorld(rc *kernel.RunCtx) {
 		}
 		for rel := range after2 {
 			tr := strings.TrimSuffix(rel, "_templ.go") + ".templ"
-			if _, had := after[rel]; !had && !diskFaulted[tr] {
+			if _, had := after[rel]; !had && !diskFaulted[tr] && !void {
 				rc.Fail("C15/second-run-creates-file", "%s: second run created %s", desc, rel)
 				return
 			}
@@ -447,6 +508,13 @@ func simWorld(rc *kernel.RunCtx) {
 		if lazy {
 			// a half-written output is newer than its template: -lazy skips it by design
 			heal = diskFaulted
+			if void {
+				// ... and an interrupted run may have left any of them half-written
+				heal = map[string]bool{}
+				for _, rel := range templs {
+					heal[rel] = true
+				}
+			}
 		}
 		w.judge2(desc, before, after2, expected, generatable, heal, templs, keep, lazy, files, runErr2)
 		sample = map[string]any{"config": desc, "templates": len(templs), "generatable": len(generatable), "faults": fmt.Sprint(len(w.faults)), "first_run_error": fmt.Sprint(runErr), "max_parked_groups": w.maxPar, "steps": k.Steps}
